@@ -76,12 +76,22 @@ var (
 	worldMu sync.Mutex
 	world   World
 	connSeq int
+	coarse  bool
 )
 
 func SetWorld(w World) {
 	worldMu.Lock()
 	world = w
 	connSeq = 0
+	worldMu.Unlock()
+}
+
+// SetCoarseSegmentation(true): segment sizes are fractions (all, half, a tenth) instead of
+// byte-exact draws. Used when real crypto/tls runs over the transport: ciphertext lengths vary
+// by a few bytes between executions (ECDSA signatures), and no draw may depend on them.
+func SetCoarseSegmentation(on bool) {
+	worldMu.Lock()
+	coarse = on
 	worldMu.Unlock()
 }
 
@@ -279,6 +289,13 @@ func (p *pipe) deliver(h *half) {
 		k := n
 		if h.segHook != nil {
 			k = h.segHook(n)
+		} else if coarse {
+			switch p.s.Sched.Weighted(6, 2, 1) {
+			case 1:
+				k = n / 2
+			case 2:
+				k = n / 10
+			}
 		} else {
 			switch p.s.Sched.Weighted(6, 1, 2) {
 			case 1:
